@@ -274,6 +274,17 @@ def impl(case):
                 if any(x.shape != qv[0].shape for x in pq):
                     raise RuntimeError(f"{nm}: prediction shape {pq[0].shape} is not the query's shape {qv[0].shape}")
                 res[nm] = [x.ravel().tolist() for x in pq]
+            # a single query point handed over as two scalars (Python floats, NumPy scalars, 0-d arrays): the prediction is 0-dimensional (the
+            # broadcast shape of two scalars) and is the value predicted at that point
+            q0 = (float(qE[1, 1]), float(qN[1, 1]))
+            p1 = gq.predict((np.array([q0[0]]), np.array([q0[1]])))
+            p1 = [np.asarray(x, dtype=float) for x in (p1 if isinstance(p1, tuple) else (p1,))]
+            for nm, qs in {"query-0d-float": q0, "query-0d-numpy-scalar": (np.float64(q0[0]), np.float64(q0[1])), "query-0d-array": (np.array(q0[0]), np.array(q0[1]))}.items():
+                ps = gq.predict(qs)
+                ps = [np.asarray(x, dtype=float) for x in (ps if isinstance(ps, tuple) else (ps,))]
+                if any(x.shape != () for x in ps):
+                    raise RuntimeError(f"{nm}: prediction shape {ps[0].shape} is not the broadcast shape () of two scalars")
+                res["mixed:" + nm] = [[x.ravel().tolist() for x in ps], [x.ravel().tolist() for x in p1]]
             # the query as a "sparse" meshgrid - a row of eastings and a column of northings that BROADCAST to the grid: the prediction has the
             # broadcast shape and the dense grid's values.  (The scipy-based gridders accept such queries; the others refuse arrays of different
             # sizes with a ValueError, which is a refusal, not a prediction.)
